@@ -247,7 +247,7 @@ func (rr *DefaultRelationsResolver) parseAdd(states S) S {
 	changed := true
 	for changed {
 		changed = false
-		for _, name := range states {
+		for _, name := range ret {
 			state := rr.Machine.schema[name]
 
 			if slices.Contains(rr.statesBefore, name) && !state.Multi {
